@@ -490,13 +490,13 @@ _n("C04", 'Theorems: the selection function for every set of names, every random
 _n("C05", "Theorems: a side outside the first two (or any side once there are more than two rows) gets exactly ack+crowded from open/close/claim, no message, no handle, identically on every retry; side rows only grow and are deleted only with the mailbox; first2 is frozen; every subscriber and every message recipient of an incarnation is a first-two side over whole histories (C05_ever_subscribed_reach, C05_message_to_first2); at most two sides are answered claimed per nameplate row (C05_nameplate_two_reach); a refused attempt changes nothing of the others (C05_keep_partial); K-crowded-rejoin counterexample theorem. Code side: correspondence + oracle with ghost first-two sides.", _TIE)
 _n("C06", "Theorems: a command of another app leaves every row, usage row and connection of app b unchanged and sends b nothing (C06_frame_recv, no extra hypothesis); a sweep's effect on b is determined by b's rows alone (C06_frame_sweep); full noninterference for every crash-free well-formed history: the run with the other apps' commands removed sends b the same frames step by step and ends with the same view of b (C06_noninterference_partial), under the semantic guard that b never names a mailbox id existing only under another app (K-global-mailbox-id; counterexample theorem). Code side: two-run oracle history vs history-minus-other-apps, incl. empty-string ids.", _TIE, 'Lean 4 simulation proof + two-run (metamorphic) oracle on the implementation')
 _n("C07", "Theorems for every step from any invariant state, crashes included: a claim is added only by its side's claim/allocate, removed (nameplate surviving) only by its side's release, a nameplate is deleted only by a last release / a close deleting its mailbox / a sweep (C07_claims_change_only_by_owner and corollaries), listed iff held, release total and idempotent, reclaimed changes nothing, reusable afterwards. Code side: correspondence + oracle on the claims relation around every step.", _TIE)
-_n("C08", "Theorems: exact output and post-state of every non-rejected close (C08_close_spec_reach): closed answered; another side open -> only the closer's row changes; else exactly the mailbox, its messages, sides, nameplates and their sides are gone and every other row of every table is unchanged (C08_close_frame), remaining listeners dropped; a mailbox with an open side survives every non-sweep op except that side's own last close, crashes included (C08_alive_while_open); re-close of a gone mailbox leaves the db equal; re-close of a surviving one _partial (K-close-touch, K-crowded-rejoin; counterexample theorems). Code side: correspondence + oracle on implementation dumps.", _TIE)
-_n("C09", "Theorem C09_frames_synced_all: in every well-formed history, crashes included, for every configuration, every frame is emitted with both databases committed. Code side: an independent second reader of the database FILES is compared with the server's own view at every sendMessage.", _TIE + " Durability of a SQLite commit itself (fsync/journal) is trusted.")
+_n("C08", "Theorems: exact output and post-state of every non-rejected close (C08_close_spec_reach): closed answered; another side open -> only the closer's row changes; else exactly the mailbox, its messages, sides, nameplates and their sides are gone and every other row of every table is unchanged (C08_close_frame), remaining listeners dropped; a mailbox with an OPENED side row survives every non-sweep op except that side's own last close, crashes included (C08_alive_while_open); re-close of a gone mailbox leaves the channel db equal and writes one phantom usage row (C08_reclose_gone_usage, K-reclose-usage-row); re-close of a surviving one _partial (K-close-touch, K-crowded-rejoin); a side that closed and re-opened stays `opened = false` (C08_reopen_keeps_closed; K-reopen-after-close with counterexample and the exact guard C08_alive_while_subscribed_partial). Code side: correspondence + oracle on implementation dumps and on the history-only ghost of who is subscribed.", _TIE)
+_n("C09", "Theorems: C09_frames_synced_all (every frame of every well-formed history, crashes included, every configuration, leaves with both databases committed) and C09_ack_durable (for every frame: the files a crash right after it restores hold exactly the state the server was acting on when it sent it). Code side: an independent second reader of the database FILES is compared with the server's own view at every sendMessage.", _TIE + " Durability of a SQLite commit itself (fsync/journal) is trusted.")
 _n("C10", "Theorems: the global invariant (every key unique, every foreign key resolved, >= 1 side per nameplate, connection records consistent, nothing uncommitted) in every state of every well-formed history with crashes at any commit boundary of any command or sweep; every snapshot a kill can leave satisfies it (C10_crash_state_wf); sweeps after crashes never fail, the store empties (C13_quiesce_reach); C10_resend_converges_partial': after a crash at any commit of claim/release/open/close, restart, reconnect and re-send give the same answer and the same five tables (close: modulo K-close-touch / K-crowded-rejoin, with counterexample theorems). Code side: every commit boundary of crash-profile histories crashed and restarted through the real start-up path, re-send two-run oracle, simulated crashes validated against real os._exit kills.", _TIE + " SQLite's atomic commit is trusted.", 'Lean 4 proof (global invariant at every commit point, re-send convergence) + fault enumeration over commit boundaries with correspondence')
 _n("C11", "Theorem C11_restart_invisible: for all crash-free H1, H2: frames and all channel + usage record tables of H1++dropAll++[restart]++H2 equal those without the restart (only the status row's reboot time differs). The registry of AppNamespace/Mailbox objects is modelled separately (Wormhole/Reg.lean) and PROVED to refine the object-free model for every well-formed history (Reg_refines_Sys; counterexample theorem for the pre-repair caching variant); both models are run against the code. Code side: two-run oracle comparing a rebuilt server with a kept one on the same history.", _TIE, 'Lean 4 simulation proofs (restart invisibility; registry refinement) + two-run (kept vs rebuilt server) oracle on the implementation')
 _n("C12", "Theorems: a sweep keeps every mailbox that is subscribed or whose updated is within the expiration time, with all its rows; deletes only old unsubscribed ones and nothing of another mailbox/app; activity stamps updated; connected forever; grace arithmetic with the regenerated constants; the registry's touch loop touches exactly the listened mailboxes (Reg_sweep_touches_reach). The registry of AppNamespace/Mailbox objects is modelled separately (Wormhole/Reg.lean) and PROVED to refine the object-free model for every well-formed history (Reg_refines_Sys; counterexample theorem for the pre-repair caching variant); both models are run against the code. Code side: real TimerService on a virtual clock, oracle with ghost activity/subscribers.", _TIE)
-_n("C13", "Theorems: sweep completeness in every app, C13_quiesce_reach (empty store after quiescence from any reachable state incl. crashes), faulted firing changes nothing and the next good one empties the store by the deadline. Code side: timer-driven histories with faults, emptiness oracle.", _TIE)
-_n("C14", "Theorems: idempotence of claim/release/open/close at function level; C14_duplicate_harmless_partial: for H1 (crashes allowed) ++ [op] ++ duplicate-on-a-fresh-connection ++ H2 (crash-free) the duplicate gets the same answer, all later frames and the final channel state are equal; guards exactly the known findings (surviving close: at most two side rows and modulo that row's updated), with counterexample theorems. Code side: two-run oracle duplicating every successful claim/release/open/close.", _TIE, 'Lean 4 simulation proof + two-run (metamorphic) oracle on the implementation')
+_n("C13", 'Theorems: sweep completeness in every app; C13_empty_on_schedule / C13_empty_by_T_E_P: from any reachable state (crashes included) with nobody connected and all activity <= T, under firings every period (any fault pattern) the first non-faulted firing at or after T + expiration - which exists before T + expiration + period - leaves the five tables empty; a faulted firing changes nothing. The period enters as the schedule `firingAt f0 i`; the real TimerService is exercised on a virtual clock, not modelled. Code side: timer-driven histories with faults, emptiness oracle measured from the last moment somebody was connected.', _TIE)
+_n("C14", "Theorems: idempotence of claim/release/open/close at function level; C14_duplicate_harmless_partial (H1 may contain crashes, tail crash-free): same answer, all later frames and final channel state equal, for claim/release/open and close of a mailbox that is deleted; C14_close_survives_run: the ordinary surviving close under any tail whose sweeps do not separate the two stamps (SweepsOK; tight by counterexample): everything equal modulo that row's `updated` (K-close-touch); K-crowded-rejoin guard with counterexamples. Code side: two-run oracle duplicating every successful claim/release/open/close, also after a server restart.", _TIE, 'Lean 4 simulation proofs + two-run (metamorphic) oracle on the implementation')
 _n("C15", 'Theorems: classification and time fields of both summary functions for every list of side rows and both values of pruned; C15_one_record_each: in every non-crash step from an invariant state the usage nameplate/mailbox records appended are, up to order, exactly the summaries of the rows the step retired (incl. the mailbox a close creates and deletes within one step), client rows exactly one per accepted bind, nothing ever removed; records = retirements over histories; status row = number of listening connections. Code side: retirement oracle on dumps with an independent classifier.', _TIE)
 _n("C16", 'Theorems: floor/multiple/less-than-one-interval for every interval, tick rate and time; C16_all_rows_blurred: in every reachable state (crashes included) every started/connect time in the usage database is a multiple of the interval; C16_records_close_to_truth: each new record lies less than one interval before the true time. Code side: rows vs true virtual times for random intervals, unindexable client_version shapes, and arbitrary double-precision times (implementation only).', _TIE)
 _n("C17", "Theorems for every state: welcome, ack first, ping/pong, the complete enumeration of rejected situations with exact output and whole-state unchanged (C17_validation_error, C17_validation_complete); from reachable states an internal failure has one of three named causes only (C17_internal_only_known; counterexample theorems for K-global-mailbox-id and K-alloc-exhaust). Code side: oracle with ghost protocol flags, malformed stream from every connection state, odd strings.", _TIE)
